@@ -511,6 +511,16 @@ class NumericValue(Value):
         length += 1 if length % 2 == 1 else 0
         return length
 
+    def fit(self, digits):
+        """
+        The value as an unsigned field of the given number of hex digits; a
+        negative value is stored in two's complement at that width.
+        """
+        number = -self.int if self.negative else self.int
+        if not -(1 << (4 * digits - 1)) <= number < (1 << (4 * digits)):
+            raise ValueTypeError("value {} does not fit in {} byte(s)".format(number, digits // 2))
+        return NumericValue(number & ((1 << (4 * digits)) - 1), size_hint=digits)
+
     def post_init_direct_check(self):
         if self.size_hint is None and self.explict_addressing_mode != ExplicitAddressingMode.EXPLICIT_EXTENDED:
             if self.int < 256 and self.explict_addressing_mode != ExplicitAddressingMode.IMMEDIATE:
